@@ -51,6 +51,7 @@ API (used by drivers c06/c16 and meant for reuse by the verify / attestation-flo
                         every corruption: what TLC judges (spec/CertChainProps.tla)
     chain.corrupt(kind, where, rng, **opt) -> info     apply one REAL corruption, see CORRUPTIONS
     chain.expected_value(i) / chain.message(i)          oracle values from the structured input
+    chain.put_element(item) -> index   add / replace one element the way HSMCertificate.add_element does
     chain.dump(path)    write the JSON file
 
     build_chain(spec, rng)                -> (cert_dict, root_pubkey_hex, keys)     thin wrapper
@@ -315,6 +316,7 @@ class Chain:
         # spelling overlay: (element index, field) -> member of SPELLINGS.  self.cert always holds the
         # canonical spelling; rendered() / dump() write the chosen spellings
         self.spelling = {}
+        self._mk = None
 
     # ---- helpers ----
     def _reg(self, kid, key):
@@ -397,6 +399,77 @@ class Chain:
             s.tweak_hex = e.get("tweak", "")
             s.sigk, s.sigt, s.sigover = self._sig2sym.get(bytes.fromhex(e["signature"]),
                                                           ("k_none", "none", "m_none"))
+
+    def _make(self, i, it, last):
+        """(Re)create element i from the item description `it`: message per shape, real signature by the
+        (tweaked) key of its signer; `last` maps an element name to the key id it stands for."""
+        rng = self.rng
+        n = it["name"]
+        key = self.keys[self._own[i]]
+        if it.get("message") is not None:
+            msg = bytes(it["message"])
+        elif it.get("shape", "canon") != "canon":
+            msg = shaped_message(n, key, it["shape"], rng, it.get("variant"))
+        else:
+            kb = key.pub33 if (it.get("compressed") and n != "device") else key.pub65
+            if n == "device":
+                pre = it.get("prefix")
+                if pre is None:
+                    pre = bytes(rng.randrange(256) for _ in range(rng.randrange(1, 40)))
+                msg = bytes(pre) + kb
+            elif n == "attestation":
+                pre = it.get("prefix")
+                if pre is None:
+                    pre = bytes([rng.randrange(256)])
+                msg = bytes(pre) + kb
+            else:
+                msg = kb
+        tw = it.get("tweak")
+        if tw == "random":
+            tw = bytes(rng.randrange(256) for _ in range(32))
+        signer = it.get("signer", it["signed_by"])
+        if not isinstance(signer, str):
+            sid = "ghost:%r" % (signer,)
+        elif signer == ROOT:
+            sid = "root"
+        elif signer in last:
+            sid = last[signer]
+        elif signer in self.keys:
+            sid = signer
+        else:
+            sid = "ghost:%s" % (signer,)
+        if sid not in self.keys:
+            self._reg(sid, (self._mk or new_key)(rng))
+        self._signer[i] = sid
+        sig = self._sign(i, sid, tw, msg)
+        e = {"name": n, "message": msg.hex(), "signature": sig.hex(), "signed_by": it["signed_by"]}
+        if tw is not None:
+            e["tweak"] = tw.hex()
+        self.cert["elements"][i] = e
+
+    def put_element(self, it):
+        """What HSMCertificate.add_element does to the content: a NEW element is appended (with a fresh
+        key); an element whose name already exists is REPLACED by a re-issued one for the same key (new
+        message where the format leaves room, new certifier / signature / tweak as `it` says).
+        Returns the element's index."""
+        n = it["name"]
+        idx = [i for i, e in enumerate(self.cert["elements"]) if e["name"] == n]
+        last = {e["name"]: self._own[j] for j, e in enumerate(self.cert["elements"])}
+        if idx:
+            i = idx[-1]
+            for k in [k for k in self.spelling if k[0] == i]:
+                del self.spelling[k]
+        else:
+            i = len(self.cert["elements"])
+            kid = n if n not in self.keys else self._fresh_id(n + "#")
+            self._reg(kid, (self._mk or new_key)(self.rng))
+            self._own.append(kid)
+            self._signer.append(None)
+            self.cert["elements"].append(None)
+            last[n] = kid
+        self._make(i, it, last)
+        self.resym()
+        return i
 
     def respell(self, where, field, member):
         """Write `field` ("message" | "signature" | "tweak") of element `where` in another spelling of the
@@ -581,50 +654,13 @@ def build(spec, rng, backend="ecdsa", keypool=None):
     last = {}
     for i, it in enumerate(items):
         last[it["name"]] = own[i]          # a name denotes its last occurrence
+    ch._mk = mk
     for i, it in enumerate(items):
-        n = it["name"]
-        key = ch.keys[own[i]]
-        if it.get("message") is not None:
-            msg = bytes(it["message"])
-        elif it.get("shape", "canon") != "canon":
-            msg = shaped_message(n, key, it["shape"], rng, it.get("variant"))
-        else:
-            kb = key.pub33 if (it.get("compressed") and n != "device") else key.pub65
-            if n == "device":
-                pre = it.get("prefix")
-                if pre is None:
-                    pre = bytes(rng.randrange(256) for _ in range(rng.randrange(1, 40)))
-                msg = bytes(pre) + kb
-            elif n == "attestation":
-                pre = it.get("prefix")
-                if pre is None:
-                    pre = bytes([rng.randrange(256)])
-                msg = bytes(pre) + kb
-            else:
-                msg = kb
-        tw = it.get("tweak")
-        if tw == "random":
-            tw = bytes(rng.randrange(256) for _ in range(32))
-        signer = it.get("signer", it["signed_by"])
-        if not isinstance(signer, str):
-            sid = "ghost:%r" % (signer,)
-        elif signer == ROOT:
-            sid = "root"
-        elif signer in last:
-            sid = last[signer]
-        elif signer in ch.keys:
-            sid = signer
-        else:
-            sid = "ghost:%s" % (signer,)
-        if sid not in ch.keys:
-            ch._reg(sid, mk(rng))
         ch._own.append(own[i])
-        ch._signer.append(sid)
-        sig = ch._sign(i, sid, tw, msg)
-        e = {"name": n, "message": msg.hex(), "signature": sig.hex(), "signed_by": it["signed_by"]}
-        if tw is not None:
-            e["tweak"] = tw.hex()
-        ch.cert["elements"].append(e)
+        ch._signer.append(None)
+        ch.cert["elements"].append(None)
+        ch._make(i, it, last)
+    ch._mk = None           # (later additions draw fresh keys; keeps the chain picklable)
     ch.resym()
     ch.cert["targets"] = list(spec.get("targets", []))
     return ch
